@@ -59,6 +59,12 @@ func genC15(t *rapid.T) *C15Case {
 	timeout := time.Duration(cfg.CloseTimeoutMs) * time.Millisecond
 	switch c.Ending {
 	case "peer-logout":
+		if rapid.IntRange(0, 2).Draw(t, "probeFirst") == 0 {
+			// silent until the session has probed the peer; the Logout is the peer's next message
+			T := int64(tolT(g.hb))
+			add(rig.Step{Op: "advance", Dt: T + T/10 + 1e6})
+			c.AnswerKind = "after-probe"
+		}
 		c.EndStep = add(rig.Step{Op: "in", In: g.logout()})
 	case "local-logout":
 		c.EndStep = add(rig.Step{Op: "logout"})
@@ -154,13 +160,13 @@ func checkC15(c *C15Case, rec *evid.Rec) (vs []pbt.Violation) {
 	}
 	timeout := time.Duration(c.Cfg.CloseTimeoutMs) * time.Millisecond
 	end := tr.Steps[c.EndStep]
-	if !tr.Steps[c.EndStep-1].Logged && c.EndStep > 0 {
+	if !tr.Steps[c.EndStep-1].Logged && c.EndStep > 0 && c.AnswerKind != "after-probe" {
 		// the prefix must leave the session logged on
 		return []pbt.Violation{pbt.V("harness:not-logged", "prefix did not leave the session logged on")}
 	}
 	switch c.Ending {
 	case "peer-logout":
-		if n := logouts(end.Out); n != 1 || len(end.Out) != 1 {
+		if n := logouts(end.Out); n != 1 || (len(end.Out) != 1 && c.AnswerKind != "after-probe") {
 			vs = append(vs, pbt.V("peer-logout-reply-count", "a peer Logout must be answered by exactly one Logout, emitted:%s", showOut(end)))
 		}
 		if end.Logged {
